@@ -123,6 +123,11 @@ def strat_history(draw, tier):
                    if slow else 0.0 for _ in range(n)]
         bursts.append({"window": draw(st.integers(1, 16)), "cmds": cmds,
                        "single": single, "cb_time": cb_time,
+                       # what the callbacks are: plain functions, or callable
+                       # collections that are still empty (hence false) when
+                       # the reply arrives
+                       "cb_kind": draw(st.sampled_from(
+                           ["function", "function", "collector"])),
                        # the commands' own payload (latin-1): bytes that
                        # mean something to string formatting included
                        "data": draw(st.sampled_from(
@@ -186,11 +191,17 @@ def run_history(case, wrap=False):
                 h.net.select_calls
             events.append(("burst", h.clock.now, b))
 
-            def make_cb(cid):
+            def make_cb(cid, kind=burst.get("cb_kind", "function")):
                 def cb(packet):
                     events.append(("callback", h.clock.now, cid,
                                    bytes(packet)))
                     h.clock.now += durations.get(cid, 0.0)
+                if kind == "collector":
+                    class Collector(list):
+                        def __call__(self, packet):
+                            cb(packet)
+                            self.append(bytes(packet))
+                    return Collector()
                 return cb
             payload = burst.get("data", "").encode("latin-1")
             calls = [sc.scpcall(1, 2, 3, 5, cid, 0, 0, payload, make_cb(cid),
